@@ -259,53 +259,55 @@ def feasible(pc):
     return s.check() != z3.unsat
 
 
+_SERVER = {}
+
+
+def _server():
+    import subprocess as sp
+    import sys
+
+    key = os.getpid()
+    p = _SERVER.get(key)
+    if p is None or p.poll() is not None:
+        env = dict(os.environ)
+        env["PYTHONPATH"] = os.path.dirname(os.path.dirname(os.path.dirname(os.path.abspath(__file__)))) + os.pathsep + env.get("PYTHONPATH", "")
+        p = sp.Popen([sys.executable, "-W", "ignore", os.path.join(os.path.dirname(os.path.abspath(__file__)), "solver_server.py")], stdin=sp.PIPE, stdout=sp.PIPE, stderr=sp.DEVNULL, env=env)
+        _SERVER.clear()
+        _SERVER[key] = p
+    return p
+
+
 def _guarded_check(s, timeout_ms, ivars=None):
-    """z3's own timeout (and ctx.interrupt) is not honoured in every phase of a quantified query, so the check runs in a
-    forked child that is killed after a grace period.  Returns (result string, model values of `ivars` or None, note)."""
+    """Run the query in the out-of-process z3 worker (vk/e1/solver_server.py) under a hard deadline; the worker is killed and
+    respawned if it does not answer.  Returns (result string, {param: value string} or None, note)."""
     import json
     import select
-    import signal
 
-    rfd, wfd = os.pipe()
-    pid = os.fork()
-    if pid == 0:
+    txt = s.to_smt2().encode()
+    names = {str(v): p for p, v in (ivars or {}).items()}
+    for attempt in (0, 1):
+        p = _server()
         try:
-            os.close(rfd)
-            try:
-                res = s.check()
-                payload = {"res": str(res)}
-                if res == z3.sat and ivars:
-                    m = s.model()
-                    payload["model"] = {p: str(m.eval(v, model_completion=True)) for p, v in ivars.items()}
-                if res == z3.unknown:
-                    payload["why"] = s.reason_unknown()
-            except BaseException as e:  # noqa
-                payload = {"res": "unknown", "why": f"{type(e).__name__}: {e}"}
-            os.write(wfd, json.dumps(payload).encode())
-        finally:
-            os._exit(0)
-    os.close(wfd)
-    try:
-        ready, _, _ = select.select([rfd], [], [], timeout_ms / 1000.0 * 1.25 + 2.0)
+            p.stdin.write((json.dumps({"n": len(txt), "timeout": int(timeout_ms), "names": list(names)}) + "\n").encode() + txt)
+            p.stdin.flush()
+        except (BrokenPipeError, OSError):
+            p.kill()
+            continue
+        ready, _, _ = select.select([p.stdout], [], [], timeout_ms / 1000.0 * 1.25 + 3.0)
         if not ready:
-            os.kill(pid, signal.SIGKILL)
-            return "unknown", None, "hard timeout (solver killed)"
-        data = b""
-        while True:
-            chunk = os.read(rfd, 65536)
-            if not chunk:
-                break
-            data += chunk
-        if not data:
-            return "unknown", None, "solver process died"
-        payload = json.loads(data.decode())
-        return payload["res"], payload.get("model"), payload.get("why", "")
-    finally:
-        os.close(rfd)
-        try:
-            os.waitpid(pid, 0)
-        except ChildProcessError:
-            pass
+            p.kill()
+            p.wait()
+            return "unknown", None, "hard timeout (solver process killed)"
+        line = p.stdout.readline()
+        if not line:
+            p.kill()
+            continue
+        rep = json.loads(line)
+        model = None
+        if rep.get("model") is not None:
+            model = {names[k]: v for k, v in rep["model"].items() if k in names}
+        return rep["res"], model, rep.get("why", "")
+    return "unknown", None, "solver process unavailable"
 
 
 def _conjuncts(g):
@@ -509,7 +511,12 @@ def verify_function(spec, key, cfg, tier, seed, root=None, sid=None, differentia
                     basename = vc.name.split("#")[0]
                     clause = basename.split(".", 1)[1] if basename.startswith("ret") and "." in basename else None
                     hit = None
-                    if clause is not None and clause in cs["native"]:
+                    if basename.startswith("loop") and ".hint" in basename:
+                        basename = basename.split(".")[0] + ".preserve"
+                    if clause is not None and clause.startswith("hint") and cs["native"]:
+                        k = next(iter(cs["native"]))
+                        hit = (cs["native"][k], f"lemma for the postcondition cannot be established and clause '{k}' fails on the real function")
+                    elif clause is not None and clause in cs["native"]:
                         hit = (cs["native"][clause], f"clause '{clause}' fails on the real function")
                     elif clause is not None and clause.startswith("not_") and any(k.startswith("no_raise") or k.startswith("raises") for k in cs["native"]):
                         k = next(k for k in cs["native"] if k.startswith("no_raise") or k.startswith("raises"))
